@@ -10,7 +10,9 @@ Model of block notarization at one miner (C31): `chaincore/chain/protocol_block.
 `checkBlockNotarization` → `AddNotarizedBlock`).
 
 A ticket is `(verifier, signature, encoding)`: verifiers are numbers — `pks[v]` is the key of node `v` when the process
-knows such a node; the miners of a round are the pool of the magic block in force for that round (`pools[slot]`, a block
+knows such a node; the miners of a round are the pool of the magic block in force for that round (`Node.pool slot` =
+miners of `mbOf (round of the slot)` — ONE function, `GetMagicBlock` with its view-change offset, gives both the signer
+set and the threshold; a block
 belongs to the round of its `slot`), every other number is foreign *for that round* (a node of another magic block, a
 non-miner). `enc` tags the textual encoding of the signature (lower/upper-case hex …): the real code compares
 signature *strings* where it keys a map by signature (the round's ticket store), and curve points where it verifies.
@@ -43,8 +45,9 @@ structure Blk (F : Type) where
 
 structure Node (F : Type) where
   pks : List F                               -- public keys of the nodes the process knows, by number
-  pools : List (List Nat)                    -- the miner pool of the magic block in force for the round of each slot
-  thresholds : List Nat                      -- `GetNotarizationThresholdCount(pool size)` per slot
+  mbs : List (Nat × List Nat)                -- installed magic blocks: (starting round, miner set), ascending
+  rounds : List Nat                          -- the round number of each slot
+  pct : Nat                                  -- `threshold_by_count` (percent)
   blocks : List (Blk F)                      -- blocks known to the chain (`mc.GetBlock`)
   store : List (Nat × Ticket F)              -- the round's verified tickets (`r.verificationTickets`, keyed by signature)
   roundNotarized : List Nat                  -- the round's notarized blocks
@@ -56,11 +59,23 @@ def Node.setBlock (nd : Node F) (b : Blk F) : Node F :=
   if nd.blocks.any (·.id == b.id) then { nd with blocks := nd.blocks.map (fun x => if x.id == b.id then b else x) }
   else { nd with blocks := nd.blocks ++ [b] }
 
+/-- `chain.mbRoundOffset`: a magic block starting at round `S` is in force from round `S + ViewChangeOffset` (4). -/
+def mbRoundOffset (rn : Nat) : Nat := if rn < 5 then rn else rn - 4
+
+/-- `Chain.GetMagicBlock(round)`: the last installed magic block whose starting round is `≤ mbRoundOffset round`
+(index into `mbs`; the first one if none qualifies). THE function that says which magic block a round belongs to. -/
+def mbOf (mbs : List (Nat × List Nat)) (round : Nat) : Nat :=
+  ((List.range mbs.length).filter (fun i => decide ((mbs.getD i (0, [])).1 ≤ mbRoundOffset round))).getLastD 0
+
+/-- the miner pool of the magic block in force for the slot's round. -/
+def Node.pool (nd : Node F) (slot : Nat) : List Nat := (nd.mbs.getD (mbOf nd.mbs (nd.rounds.getD slot 0)) (0, [])).2
+
 /-- `c.GetMiners(round).GetNode(id)`: membership in the pool of the ROUND's magic block. -/
 def Node.pk? (nd : Node F) (slot : Nat) (v : Nat) : Option F :=
-  if (nd.pools.getD slot []).contains v then nd.pks[v]? else none
+  if (nd.pool slot).contains v then nd.pks[v]? else none
 
-def Node.threshold (nd : Node F) (slot : Nat) : Nat := nd.thresholds.getD slot 0
+/-- `GetNotarizationThresholdCount(GetMagicBlock(round).Miners.Size())` = `ceil(pct% · size)` — of the SAME magic block. -/
+def Node.threshold (nd : Node F) (slot : Nat) : Nat := ((nd.pool slot).length * nd.pct + 99) / 100
 
 /-- `VerifyTickets(blockHash, bvts)`: every verifier must be a miner (first failure ends the call), then the aggregate
 check; `none` = empty list (the scheme is created with batch size 0: division by zero inside a goroutine). -/
